@@ -65,6 +65,11 @@ def string_positions(s):
         ast.Compare(ast.Eq(), I("s1"), ast.Null()) if False else ast.Compare(ast.Eq(), call("length", call("concat", L, I("s1"))), ast.Integer("1")),
         call("hassubset", I("c1"), ast.List([L, S("b")])), call("hassubset", ast.List([L]), I("c1")),
         ast.Compare(ast.Eq(), call("length", ast.List([L, L])), ast.Integer("2")),
+        # long lists of strings (15 / 16 / 17 / 40 / 300 elements) holding the content once, first / in the middle / last
+        ast.Compare(ast.In(), I("s1"), ast.List([S("a%d" % k) for k in range(14)] + [L])), ast.Compare(ast.In(), I("s1"), ast.List([L] + [S("a%d" % k) for k in range(15)])),
+        ast.Compare(ast.In(), I("s1"), ast.List([S("a%d" % k) for k in range(8)] + [L] + [S("b%d" % k) for k in range(8)])),
+        ast.Compare(ast.In(), I("s1"), ast.List([S("a%d" % k) for k in range(39)] + [L])), ast.Compare(ast.In(), I("s1"), ast.List([S("a%d" % k) for k in range(150)] + [L] + [S("b%d" % k) for k in range(149)])),
+        ast.UnaryOp(ast.Not(), ast.Compare(ast.In(), I("s2"), ast.List([L] * 16))),
         # two string literals in one call, the hostile one first / second / both (templates filled argument by argument)
         ast.Compare(ast.Ge(), call("indexof", L, S(", 1) >= 0 OR 1=1 --")), ast.Integer("0")) if hasattr(ast, "Ge") else ast.Compare(ast.GtE(), call("indexof", L, S(", 1) >= 0 OR 1=1 --")), ast.Integer("0")),
         ast.Compare(ast.Eq(), call("substring", L, ast.Integer("1"), ast.Integer("2")), S("$1")), ast.Compare(ast.Eq(), call("indexof", call("concat", L, I("s1")), S("$1 $2")), ast.Integer("0")),
